@@ -54,6 +54,57 @@ theorem verifierDigestAlg_eq (k : KeySpec) : verifierDigestAlg (specAlg k) = som
 theorem digestUnder_spec (b : Blob) (k : KeySpec) : b.digestUnder (specDigestAlg k) = some (b.specDigest k) := by
   cases k <;> rfl
 
+/-! ### readers: io.Copy hashes the whole byte sequence, however it is delivered -/
+
+theorem delivered_replicate (k n : Nat) (xs : List (Nat × Bool)) :
+    delivered (List.replicate k (n, false) ++ xs) = n * k + delivered xs := by
+  induction k with
+  | zero => simp
+  | succ k ih =>
+    simp only [List.replicate_succ, List.cons_append, delivered, ih, Bool.false_eq_true, if_false]
+    rw [Nat.mul_succ]; omega
+
+/-- **Reader behaviour does not matter**: for every script of reads - any chunk sizes, one byte
+at a time, zero-length reads with a nil error, the last bytes arriving together with io.EOF or
+before it, any number of reads - the copy loop hashes exactly the byte sequence the reader
+stands for (unbounded: induction over the script). -/
+theorem copyLoop_eq_represented (steps : List ReadStep) :
+    copyLoop steps = delivered (expandReads steps) := by
+  induction steps with
+  | nil => rfl
+  | cons s rest ih =>
+    simp only [copyLoop, expandReads]
+    by_cases ht : s.times = 0
+    · simp [ht, ih]
+    · simp only [ht, if_false, List.append_assoc, delivered_replicate]
+      have hk : s.n * (s.times - 1) + s.n = s.n * s.times := by
+        have : s.times = (s.times - 1) + 1 := by omega
+        conv => rhs; rw [this, Nat.mul_succ]
+      cases he : s.eof
+      · simp only [Bool.false_eq_true, if_false, List.cons_append, List.nil_append, delivered, ih]
+        omega
+      · simp only [if_true, List.cons_append, List.nil_append, delivered]
+        omega
+
+theorem wf_blob (i : Input) (hwf : wf i = true) (hk : i.kind = .blob) :
+    ((copyLoop i.signReader.steps : Nat) : Int) = i.blob.size ∧
+    ((copyLoop i.verifyReader.steps : Nat) : Int) = i.blob.size := by
+  simp only [wf, hk, Bool.or_eq_true, beq_iff_eq, Bool.and_eq_true, decide_eq_true_eq, represented] at hwf
+  rcases hwf with h | h
+  · cases h
+  · rw [copyLoop_eq_represented, copyLoop_eq_represented]
+    exact ⟨of_decide_eq_true h.1, of_decide_eq_true h.2⟩
+
+theorem digestOfFirst_all (b : Blob) (k : KeySpec) :
+    b.digestOfFirst (specDigestAlg k) b.size = some (b.specDigest k) := by
+  simp [Blob.digestOfFirst, digestUnder_spec]
+
+/-- a truncated read is never mistaken for the blob: its digest is not the blob's (as long as
+the digest strings are not of the marker's form - digests are `alg:hex`) -/
+theorem digestOfFirst_truncated (b : Blob) (k : KeySpec) (n : Int) (hn : n ≠ b.size) :
+    b.digestOfFirst (specDigestAlg k) n = some ("truncated:" ++ b.specDigest k) := by
+  simp [Blob.digestOfFirst, digestUnder_spec, hn]
+
 theorem kvLookup_insert (k v k' : String) (m : List KV) :
     kvLookup k' (kvInsert k v m) = if k = k' then some v else kvLookup k' m := by
   induction m with
@@ -227,7 +278,7 @@ def expectedAttrs (i : Input) (nowNs : Int) : Protected :=
 /-- **the signing API, characterised**: it refuses exactly the illegal arguments, and for legal
 ones the envelope protects the sanitised descriptor with the metadata merged in, the truncated
 signing time and signing time + duration - for every key spec, format, signer and crypto scheme -/
-theorem signModel_eq (C : Crypto) (key : C.Key) (i : Input) (nowNs : Int) :
+theorem signModel_eq (C : Crypto) (key : C.Key) (i : Input) (nowNs : Int) (hwf : wf i = true) :
     signModel C key i nowNs =
       if legal i then some (envelopeOf C key i (expectedAttrs i nowNs)) else none := by
   unfold signModel legal
@@ -246,7 +297,8 @@ theorem signModel_eq (C : Crypto) (key : C.Key) (i : Input) (nowNs : Int) :
         by_cases hm : i.contentMediaType = ""
         · simp [hm]
         · by_cases hv : i.mediaTypeValid = true
-          · simp only [signerKeySpec_eq, signerDigestAlg_eq, digestUnder_spec, addUserMetadata_eq]
+          · have hsz := (wf_blob i hwf hk).1
+            simp only [signerKeySpec_eq, signerDigestAlg_eq, hsz, digestOfFirst_all, addUserMetadata_eq]
             by_cases hl : legalMetadata [] i.metadata = true
             · simp only [hl, if_true, signDesc_eq, protectedAttrs_eq _ _ _ _ _ h1]
               simp [expectedAttrs, expectedPayload, hk, sanitised, blobDescriptor, hm, hv]
@@ -341,9 +393,9 @@ theorem userMetadataOf_eq (p : DescObs) : userMetadataOf p = p.annotations := by
   simp [userMetadataOf, facts_returns.2]
 
 theorem runWith_eq (C : Crypto) (key : C.Key) (trust : C.Pub → Bool) (ht : trust (C.pub key) = true)
-    (nowNs : Int) (i : Input) : runWith C key trust nowNs i = obsSpec i := by
+    (nowNs : Int) (i : Input) (hwf : wf i = true) : runWith C key trust nowNs i = obsSpec i := by
   unfold runWith obsSpec
-  rw [signModel_eq]
+  rw [signModel_eq C key i nowNs hwf]
   by_cases hl : legal i = true
   · simp only [hl, if_true]
     have hexp : Option.map (fun x => x - (envelopeOf C key i (expectedAttrs i nowNs)).attrs.signingTime)
@@ -368,12 +420,14 @@ theorem runWith_eq (C : Crypto) (key : C.Key) (trust : C.Pub → Bool) (ht : tru
       simp [envelopeOf, expectedAttrs]
     | blob =>
       have hv : verifyBlob trust ((envelopeOf C key i (expectedAttrs i nowNs)).attrs.signingTime + (i.lagSec : Int))
-          i.blob (statedMediaType i) (wantedMetadata i) (envelopeOf C key i (expectedAttrs i nowNs)) =
+          i.blob (copyLoop i.verifyReader.steps) (statedMediaType i) (wantedMetadata i)
+          (envelopeOf C key i (expectedAttrs i nowNs)) =
           if verifySpec i then some (expectedPayload i) else none := by
-        simp only [verifyBlob, hps, verifySpec, hk]
+        have hsz := (wf_blob i hwf hk).2
+        simp only [verifyBlob, hps, verifySpec, hk, hsz]
         have ha : (envelopeOf C key i (expectedAttrs i nowNs)).attrs.alg = specAlg i.keySpec := rfl
         have hp : (envelopeOf C key i (expectedAttrs i nowNs)).attrs.payload = expectedPayload i := rfl
-        simp only [ha, hp, verifierDigestAlg_eq, digestUnder_spec, facts_returns.1]
+        simp only [ha, hp, verifierDigestAlg_eq, digestOfFirst_all, facts_returns.1]
         by_cases he : expiredAtVerify i = true
         · simp [he]
         · simp only [he, Bool.not_false, Bool.true_and, Bool.not_true, Bool.false_eq_true, if_false]
@@ -406,17 +460,19 @@ theorem runWith_eq (C : Crypto) (key : C.Key) (trust : C.Pub → Bool) (ht : tru
 
 /-! ### property theorems -/
 
-theorem run_eq (i : Input) : run i = obsSpec i := by
+theorem run_eq (i : Input) (hwf : wf i = true) : run i = obsSpec i := by
   unfold run
-  apply runWith_eq
+  apply runWith_eq _ _ _ _ _ _ hwf
   simp [toyTrust, toy]
 
 /-- **C07, the whole property**: every clause of `Holds` is true of the model's behaviour, for
-every input (no well-formedness hypothesis). -/
-theorem model_holds (i : Input) : Holds i (run i) = true := by
-  rw [run_eq]
+every well-formed input. `wf` is explicit and decidable: in a blob case both readers stand for
+exactly the blob (the harness builds every reader script from the blob and checks it; the clause
+`input_well_formed` makes the driver reject anything else). -/
+theorem model_holds (i : Input) (hwf : wf i = true) : Holds i (run i) = true := by
+  rw [run_eq i hwf]
   unfold Holds clauses obsSpec
-  simp only [Clauses.holds_cons, Clauses.holds_nil, Bool.and_true]
+  simp only [Clauses.holds_cons, Clauses.holds_nil, Bool.and_true, hwf, Bool.true_and]
   by_cases hl : legal i = true
   · simp only [hl, if_true]
     by_cases hv : verifySpec i = true
@@ -437,28 +493,29 @@ the signature the signing API produces is accepted by the verification API under
 that trusts the signer, when the caller asks for what was signed before the expiry. -/
 theorem sign_then_verify_ok (C : Crypto) (key : C.Key) (trust : C.Pub → Bool)
     (ht : trust (C.pub key) = true) (nowNs : Int) (i : Input)
-    (hl : legal i = true) (hc : consistentVerify i = true) (he : expiredAtVerify i = false) :
+    (hwf : wf i = true) (hl : legal i = true) (hc : consistentVerify i = true) (he : expiredAtVerify i = false) :
     (runWith C key trust nowNs i).signed = true ∧ (runWith C key trust nowNs i).verified = true := by
-  rw [runWith_eq C key trust ht]
+  rw [runWith_eq C key trust ht nowNs i hwf]
   simp [obsSpec, hl, verifySpec_of_consistent i hl hc he]
 
 /-- the same at the level of the two APIs: the envelope exists and the verifier accepts it -/
 theorem sign_then_verify_ok_api (C : Crypto) (key : C.Key) (trust : C.Pub → Bool)
     (ht : trust (C.pub key) = true) (nowNs : Int) (i : Input)
-    (hl : legal i = true) (hc : consistentVerify i = true) (he : expiredAtVerify i = false) :
+    (hwf : wf i = true) (hl : legal i = true) (hc : consistentVerify i = true) (he : expiredAtVerify i = false) :
     ∃ e, signModel C key i nowNs = some e ∧
       (i.kind = .oci → verifyOCI trust (e.attrs.signingTime + (i.lagSec : Int)) i.desc (wantedMetadata i) e = true) ∧
-      (i.kind = .blob → verifyBlob trust (e.attrs.signingTime + (i.lagSec : Int)) i.blob (statedMediaType i)
-          (wantedMetadata i) e = some (expectedPayload i)) := by
-  have h := runWith_eq C key trust ht nowNs i
+      (i.kind = .blob → verifyBlob trust (e.attrs.signingTime + (i.lagSec : Int)) i.blob
+          (copyLoop i.verifyReader.steps) (statedMediaType i) (wantedMetadata i) e = some (expectedPayload i)) := by
+  have h := runWith_eq C key trust ht nowNs i hwf
   have hv := verifySpec_of_consistent i hl hc he
-  refine ⟨envelopeOf C key i (expectedAttrs i nowNs), by simp [signModel_eq, hl], ?_, ?_⟩
+  have hs := signModel_eq C key i nowNs hwf
+  refine ⟨envelopeOf C key i (expectedAttrs i nowNs), by simp [hs, hl], ?_, ?_⟩
   · intro hk
-    simp only [runWith, signModel_eq, hl, if_true, hk, obsSpec, hv] at h
+    simp only [runWith, hs, hl, if_true, hk, obsSpec, hv] at h
     have := congrArg Obs.verified h
     simpa using this
   · intro hk
-    simp only [runWith, signModel_eq, hl, if_true, hk, obsSpec, hv] at h
+    simp only [runWith, hs, hl, if_true, hk, obsSpec, hv] at h
     split at h
     · rename_i r hr
       rw [hr]
@@ -468,21 +525,21 @@ theorem sign_then_verify_ok_api (C : Crypto) (key : C.Key) (trust : C.Pub → Bo
       simp at this
 
 /-- illegal arguments are refused: the signing API produces nothing -/
-theorem illegal_is_refused (C : Crypto) (key : C.Key) (nowNs : Int) (i : Input) (hl : legal i = false) :
-    signModel C key i nowNs = none := by
-  simp [signModel_eq, hl]
+theorem illegal_is_refused (C : Crypto) (key : C.Key) (nowNs : Int) (i : Input) (hwf : wf i = true)
+    (hl : legal i = false) : signModel C key i nowNs = none := by
+  simp [signModel_eq C key i nowNs hwf, hl]
 
 /-- **The signed payload is the sanitised descriptor**: media type, digest, size and the
 annotations with the user metadata merged in - nothing else (no urls, platform, data, artifact
 type), for descriptors with any extra fields. -/
 theorem payload_is_sanitised_desc (C : Crypto) (key : C.Key) (nowNs : Int) (i : Input) (e : Envelope C)
-    (h : signModel C key i nowNs = some e) :
+    (hwf : wf i = true) (h : signModel C key i nowNs = some e) :
     e.attrs.payload = expectedPayload i ∧ e.attrs.payload.extraKeys = [] ∧
     (i.kind = .oci → e.attrs.payload.mediaType = i.desc.mediaType ∧ e.attrs.payload.digest = i.desc.digest ∧
         e.attrs.payload.size = i.desc.size ∧
         ∀ k, kvLookup k e.attrs.payload.annotations =
           (kvLookup k i.metadata).orElse (fun _ => kvLookup k i.desc.annotations)) := by
-  rw [signModel_eq] at h
+  rw [signModel_eq C key i nowNs hwf] at h
   by_cases hl : legal i = true
   · simp only [hl, if_true, Option.some.injEq] at h
     subst h
@@ -502,11 +559,11 @@ protected expiry is that signing time plus the requested duration - `none` for a
 duration -, whatever the sub-second part of the clock, and whether the library or an envelope
 plugin computes it. It rests on the guard of `validateSignArguments` (whole seconds). -/
 theorem expiry_exact (C : Crypto) (key : C.Key) (nowNs : Int) (i : Input) (e : Envelope C)
-    (h : signModel C key i nowNs = some e) :
+    (hwf : wf i = true) (h : signModel C key i nowNs = some e) :
     i.durationNs % 1000000000 = 0 ∧ 0 ≤ i.durationNs ∧
     e.attrs.signingTime = nowNs / 1000000000 ∧
     e.attrs.expiry = if i.durationNs = 0 then none else some (e.attrs.signingTime + i.durationNs / 1000000000) := by
-  rw [signModel_eq] at h
+  rw [signModel_eq C key i nowNs hwf] at h
   by_cases hl : legal i = true
   · simp only [hl, if_true, Option.some.injEq] at h
     subst h
@@ -526,8 +583,8 @@ theorem expiry_without_guard_depends_on_clock (p : DescObs) :
 
 /-- the observation does not depend on the signing clock at all -/
 theorem clock_independent (C : Crypto) (key : C.Key) (trust : C.Pub → Bool) (ht : trust (C.pub key) = true)
-    (n₁ n₂ : Int) (i : Input) : runWith C key trust n₁ i = runWith C key trust n₂ i := by
-  rw [runWith_eq C key trust ht, runWith_eq C key trust ht]
+    (n₁ n₂ : Int) (i : Input) (hwf : wf i = true) : runWith C key trust n₁ i = runWith C key trust n₂ i := by
+  rw [runWith_eq C key trust ht n₁ i hwf, runWith_eq C key trust ht n₂ i hwf]
 
 /-- **The blob digest uses the hash bound to the key, on both sides** (regenerated tables):
 for all six key specs and all four signers, the digest algorithm the signer derives from the
@@ -549,13 +606,13 @@ theorem plugin_hash_consistent (k : KeySpec) (s : SignerKind) :
 the content media type that was signed, the digest of the blob under the hash bound to the
 key, its size, and exactly the signed metadata. -/
 theorem blob_returns_verified_descriptor (C : Crypto) (key : C.Key) (trust : C.Pub → Bool)
-    (ht : trust (C.pub key) = true) (nowNs : Int) (i : Input) (hk : i.kind = .blob)
+    (ht : trust (C.pub key) = true) (nowNs : Int) (i : Input) (hwf : wf i = true) (hk : i.kind = .blob)
     (hv : (runWith C key trust nowNs i).verified = true) :
     (runWith C key trust nowNs i).returned = (runWith C key trust nowNs i).payload ∧
     (runWith C key trust nowNs i).returned =
       some { mediaType := i.contentMediaType, digest := i.blob.specDigest i.keySpec, size := i.blob.size,
              annotations := mergeKV [] i.metadata, extraKeys := [] } := by
-  rw [runWith_eq C key trust ht] at hv ⊢
+  rw [runWith_eq C key trust ht nowNs i hwf] at hv ⊢
   unfold obsSpec at hv ⊢
   by_cases hl : legal i = true
   · simp only [hl, if_true] at hv ⊢
@@ -567,14 +624,14 @@ successful outcome returns the payload's annotations. For a blob that is exactly
 user metadata (as a map); for an OCI artifact it is the artifact's own annotations together
 with the user metadata (the two are disjoint - colliding keys are refused at signing). -/
 theorem metadata_read_back (C : Crypto) (key : C.Key) (trust : C.Pub → Bool)
-    (ht : trust (C.pub key) = true) (nowNs : Int) (i : Input)
+    (ht : trust (C.pub key) = true) (nowNs : Int) (i : Input) (hwf : wf i = true)
     (hv : (runWith C key trust nowNs i).verified = true) :
     ∃ um, (runWith C key trust nowNs i).userMetadata = some um ∧
       ∀ k, kvLookup k um =
         match i.kind with
         | .blob => kvLookup k i.metadata
         | .oci => (kvLookup k i.metadata).orElse (fun _ => kvLookup k i.desc.annotations) := by
-  rw [runWith_eq C key trust ht] at hv ⊢
+  rw [runWith_eq C key trust ht nowNs i hwf] at hv ⊢
   unfold obsSpec at hv ⊢
   by_cases hl : legal i = true
   · simp only [hl, if_true] at hv ⊢
@@ -594,6 +651,27 @@ theorem metadata_read_back (C : Crypto) (key : C.Key) (trust : C.Pub → Bool)
       simp only [expectedPayload, hk, kvLookup_merge k [] i.metadata hlm]
       cases kvLookup k i.metadata <;> simp [kvLookup]
   · simp [hl, noSignature] at hv
+
+/-- **The payload's digest and size are those of the full byte sequence, regardless of reader
+behaviour**: two well-formed inputs that differ only in how the readers deliver the blob (on
+the signing side, the verifying side, or both) observe the same round trip. -/
+theorem reader_behaviour_irrelevant (i : Input) (r₁ r₂ : Reader) (hwf : wf i = true)
+    (hwf' : wf { i with signReader := r₁, verifyReader := r₂ } = true) :
+    run { i with signReader := r₁, verifyReader := r₂ } = run i := by
+  rw [run_eq _ hwf', run_eq _ hwf]
+  rfl
+
+/-- what the signed descriptor says about a blob: the digest under the key's hash and the size
+of all the bytes the reader stands for -/
+theorem blob_payload_covers_whole_stream (C : Crypto) (key : C.Key) (nowNs : Int) (i : Input) (e : Envelope C)
+    (hwf : wf i = true) (hk : i.kind = .blob) (h : signModel C key i nowNs = some e) :
+    e.attrs.payload.size = (represented i.signReader : Int) ∧
+    e.attrs.payload.digest = i.blob.specDigest i.keySpec := by
+  have hp := (payload_is_sanitised_desc C key nowNs i e hwf h).1
+  have hs := (wf_blob i hwf hk).1
+  rw [copyLoop_eq_represented] at hs
+  rw [hp]
+  simp only [expectedPayload, hk, represented, hs, and_self]
 
 /-! ### reused signer and verifier objects: the history does not matter -/
 
@@ -631,18 +709,19 @@ state and with any clocks, is `obsSpec` of its own input - so every legal round 
 verifies and reports exactly what was signed (`model_holds`). -/
 theorem sequence_position_irrelevant (C : Crypto) (key : KeySpec → C.Key) (trust : C.Pub → Bool)
     (ht : ∀ k, trust (C.pub (key k)) = true) (st : ObjState) (pre post : List (Int × Input))
-    (nowNs : Int) (i : Input) :
+    (nowNs : Int) (i : Input) (hwf : wf i = true) :
     (runSeqWith C key trust st (pre ++ (nowNs, i) :: post))[pre.length]? = some (obsSpec i) := by
   rw [runSeq_eq_map]
-  simp [runWith_eq C (key i.keySpec) trust (ht i.keySpec)]
+  simp [runWith_eq C (key i.keySpec) trust (ht i.keySpec) nowNs i hwf]
 
 theorem sequence_holds (C : Crypto) (key : KeySpec → C.Key) (trust : C.Pub → Bool)
-    (ht : ∀ k, trust (C.pub (key k)) = true) (st : ObjState) (xs : List (Int × Input)) :
+    (ht : ∀ k, trust (C.pub (key k)) = true) (st : ObjState) (xs : List (Int × Input))
+    (hwf : ∀ x ∈ xs, wf x.2 = true) :
     ∀ p ∈ (xs.map (·.2)).zip (runSeqWith C key trust st xs), Holds p.1 p.2 = true := by
   rw [runSeq_eq_map]
   intro p hp
   have hmem : ∃ x ∈ xs, p = (x.2, runWith C (key x.2.keySpec) trust x.1 x.2) := by
-    clear ht
+    clear ht hwf
     induction xs with
     | nil => simp at hp
     | cons x rest ih =>
@@ -651,10 +730,10 @@ theorem sequence_holds (C : Crypto) (key : KeySpec → C.Key) (trust : C.Pub →
       · exact ⟨x, List.mem_cons_self, hp⟩
       · obtain ⟨y, hy, hy'⟩ := ih hp
         exact ⟨y, List.mem_cons_of_mem _ hy, hy'⟩
-  obtain ⟨x, _, rfl⟩ := hmem
+  obtain ⟨x, hx, rfl⟩ := hmem
   simp only
-  rw [runWith_eq C (key x.2.keySpec) trust (ht x.2.keySpec), ← run_eq]
-  exact model_holds x.2
+  rw [runWith_eq C (key x.2.keySpec) trust (ht x.2.keySpec) x.1 x.2 (hwf x hx), ← run_eq x.2 (hwf x hx)]
+  exact model_holds x.2 (hwf x hx)
 
 /-! ### codec round trips (regenerated tables of plugin/proto/algorithm.go) -/
 
@@ -714,6 +793,9 @@ def exampleBlob : Input :=
     desc := { mediaType := "", digest := "", size := 0, annotations := [], urls := [], platform := false,
               data := "", artifactType := "" },
     blob := { size := 3, sha256 := "sha256:aa", sha384 := "sha384:bb", sha512 := "sha512:cc" },
+    -- signing: a zero-length read, one byte, then two bytes together with io.EOF; verifying: one byte at a time
+    signReader := { direct := false, steps := [⟨0, 2, false⟩, ⟨1, 1, false⟩, ⟨2, 1, true⟩] },
+    verifyReader := { direct := false, steps := [⟨1, 3, false⟩] },
     contentMediaType := "text/plain", mediaTypeValid := true,
     metadata := [⟨"commit", "1"⟩, ⟨"buildId", "7"⟩], durationNs := 2000000000, nowFracNs := 999999999,
     agent := "", verifyMediaType := .same, verifyMetadata := .all, lagSec := 1, exactIdentity := false, byTag := false,
@@ -729,6 +811,17 @@ example : obsSpec exampleBlob =
       returned := some { mediaType := "text/plain", digest := "sha384:bb", size := 3,
                          annotations := [⟨"buildId", "7"⟩, ⟨"commit", "1"⟩], extraKeys := [] },
       userMetadata := some [⟨"buildId", "7"⟩, ⟨"commit", "1"⟩] } := by decide
+
+/-- the example's readers are well-formed, and the copy loop takes the bytes that come with io.EOF -/
+example : wf exampleBlob = true := by decide
+example : copyLoop exampleBlob.signReader.steps = 3 ∧ copyLoop exampleBlob.verifyReader.steps = 3 := by decide
+/-- a reader that stands for fewer bytes than the blob is not well-formed -/
+example : wf { exampleBlob with signReader := { direct := false, steps := [⟨1, 1, true⟩] } } = false := by decide
+/-- `Holds` is false of a payload that describes a truncated blob (what a loop that drops the
+bytes arriving with io.EOF would sign) -/
+example : Holds exampleBlob { (obsSpec exampleBlob) with
+    payload := some { mediaType := "text/plain", digest := "sha384:prefix", size := 1,
+                      annotations := [⟨"buildId", "7"⟩, ⟨"commit", "1"⟩], extraKeys := [] } } = false := by decide
 
 /-- a reserved key, and a duration that is not a whole number of seconds, are refused -/
 example : obsSpec { exampleBlob with metadata := [⟨"io.cncf.notary.x", "1"⟩] } = noSignature := by decide
